@@ -94,6 +94,17 @@ def run(out, tier, seed, proof):
             ops.append(dict(copy.deepcopy(victim), role="recovery"))
             ops.append(dict(copy.deepcopy(victim), role="after"))
             corpus.append({"ops": ops, "sources": h["sources"], "_proj": pi, "_k": k})
+    # a fixed project in which one file is read by two tasks and one product by two others, built completely,
+    # edited, and then killed at every effect boundary
+    def tk(i, deps, prods):
+        return {"id": i, "module": 1, "deps": deps, "prods": prods, "mver": 0, "skip": False, "skipifs": [], "persist": False, "prio": 0,
+                "marks": [], "attrs": [], "after_fn": [], "after_expr": None, "use_decorator": False}
+    ts = [tk(1, [101], [111]), tk(2, [101], [112]), tk(3, [111], [113]), tk(4, [111, 112], [114])]
+    bld = {"op": "build", "tasks": ts, "cfg": dict(PLAIN), "faults": {}}
+    for k in range(26):
+        ops = [{"op": "set", "n": 101, "c": 5}, copy.deepcopy(bld), {"op": "set", "n": 101, "c": 6},
+               dict(copy.deepcopy(bld), crash={"after": k}, role="crash"), dict(copy.deepcopy(bld), role="recovery"), dict(copy.deepcopy(bld), role="after")]
+        corpus.append({"ops": ops, "sources": [101], "_proj": "shared", "_k": k})
     # run with an empty random part: everything is in the corpus
     o2 = dict(opts, corpus=corpus, shard=10)
     EC.run_engine(out, tier, seed, "C05", o2, 0, [o_c05, EO.o_c08], tag="crash")
